@@ -685,6 +685,12 @@ pub fn extended_structures(cfg: &CfgSpec) -> Vec<Structure> {
     };
     add("pend3", vec![bs(St::Pending, &[0, 1, 2], 0, -1)], vec![], true);
     add("rec3w2", vec![bs(St::Received, &[2], 2, 0), bs(St::Pending, &[0], 0, 0)], vec![], true);
+    // many batches unbonding at once (a week of daily batches with a two-week unbonding period, and more)
+    for n in [7usize, 8, 15] {
+        let mut shape: Vec<BatchSpec> = (0..n).map(|k| bs(St::Submitted, &[k % 3], 0, 1)).collect();
+        shape.push(bs(St::Pending, &[1], 0, -1));
+        add(&format!("sub{n}+pend"), shape, vec![], true);
+    }
     add("rec+rec+pend", vec![bs(St::Received, &[0, 1], 0, 0), bs(St::Received, &[0], 1, 0), bs(St::Pending, &[1], 0, 0)], vec![], true);
     add("sub+sub+pend", vec![bs(St::Submitted, &[0], 0, -1), bs(St::Submitted, &[0, 1], 0, 1), bs(St::Pending, &[0, 1], 0, -1)], vec![], true);
     add("4batches", vec![bs(St::Received, &[0], 1, 0), bs(St::Received, &[1, 2], 0, 0), bs(St::Submitted, &[0, 1, 2], 0, 0), bs(St::Pending, &[2], 0, 0)], vec![], true);
